@@ -293,6 +293,10 @@ def handle (tag : String) (args : List String) (obs : String) : String :=
           let fails := (if parOk then [] else ["concurrent-connections-interfere"]) ++
             (if isRst then [] else exchangeCheck reqs obsCalls (if tailLost then c.wire else wire) (_sched.startsWith "cut" || _sched.startsWith "busy")) ++
             (if files == "0" then [] else ["temp-file-left-behind"]) ++
+            -- everything was sent and nothing can have been lost to a reset: every request the model answers is answered
+            (if isRst || tailLost || _sched.startsWith "cut" || _sched.startsWith "busy" then [] else
+              let nFinals := fun (w : Bytes) => (((ConnContract.responses (w.length + 1) w []).getD []).filter (·.code / 100 != 1)).length
+              if nFinals wire < nFinals c.wire && (ConnContract.responses (c.wire.length + 1) c.wire []).isSome then ["request-not-answered"] else []) ++
             -- the disk failed while an upload was saved (cache = 3) and the client sent everything it declared: whatever is
             -- answered is a 5xx, never a 4xx (C20)
             (if cache == "3" && !(reqs.any fun r => r.framing.startsWith "d" || r.framing.startsWith "f") && (((ConnContract.responses (wire.length + 1) wire []).getD []).filter (·.code / 100 != 1)).any (·.code / 100 == 4)
